@@ -1,6 +1,6 @@
 (* C13 — `>Rule` behaves exactly like writing the rule's body in place. *)
 From PegV Require Import Utf8 Utf8Facts State Terminals TerminalsSpec TerminalsOk Syntax Fields
-  FieldsFacts GetFieldsFacts Literals LiteralsFacts Model Spec ShapeFacts ErrLog Sim Conform ConformX Extracted.
+  FieldsFacts GetFieldsFacts Literals LiteralsFacts Model Spec ShapeFacts ErrLog Sim Conform ConformX Subst Extracted.
 
 Theorem C13_facts :
   Extracted.file_codegen_src_include_rule_rs = true /\ Extracted.file_codegen_src_misc_rs = true /\
@@ -40,3 +40,61 @@ Theorem C13_missing : forall fcfg fuel g n,
   find_rule g n = None -> get_fields fcfg (S fuel) g (EInclude n) = GFErr (GEIncludeNotFound n).
 Proof. intros. cbn. rewrite H. reflexivity. Qed.
 Print Assumptions C13_missing.
+
+(* ---- whole grammars -----------------------------------------------------------
+   g' is g with any subset of its includes - in any rules, at any nesting depth,
+   also inside bodies that were themselves put in place - replaced by the
+   parenthesised body of the included rule (relation Subst.grel, decided by the
+   boolean Subst.grel_b), and g is accepted as far as its declarations go.  Then
+   for every family of oracles, every rule, input and recursion bound the PEG
+   specification of the two grammars returns the very same answer: verdict,
+   value with its positions, remaining input, offset and the complete log of
+   failed attempts (hence the same reported error). *)
+Theorem C13_subst :
+  forall (shk : shooks) (fuel : nat) (g g' : grammar),
+    Subst.grel_b fuel g g' = true -> Subst.fields_ok_b Extracted.fcfg g = true ->
+    forall f rule_name cs,
+      s_parse Extracted.fcfg shk g true f rule_name cs = s_parse Extracted.fcfg shk g' true f rule_name cs.
+Proof. intros shk fuel g g' R H. exact (Subst.subst_spec_b Extracted.fcfg shk true fuel g g' R H). Qed.
+Print Assumptions C13_subst.
+
+(* the same public types: related rules declare the same fields (the declaration
+   emitters are functions of the fields, the directives and the name) *)
+Theorem C13_subst_decl :
+  forall (fuel : nat) (g g' : grammar),
+    Subst.grel_b fuel g g' = true -> Subst.fields_ok_b Extracted.fcfg g = true ->
+    forall r r', In (GRule r) g -> r_directives r = r_directives r' -> r_name r = r_name r' ->
+      Subst.inl g (r_def r) (r_def r') ->
+      get_fields Extracted.fcfg (gf_fuel_s g) g (r_def r) = get_fields Extracted.fcfg (gf_fuel_s g') g' (r_def r').
+Proof.
+  intros fuel g g' R H. exact (Subst.subst_fields g g' (Subst.grel_b_ok fuel g g' R) Extracted.fcfg
+                                 (Subst.fields_ok_b_ok Extracted.fcfg g H)).
+Qed.
+Print Assumptions C13_subst_decl.
+
+(* the models of the two generated parsers agree: same tree, same end offset and
+   remaining input, same reported error; same behaviour with respect to the bound *)
+Theorem C13_subst_model :
+  forall (ustate : Type) (hk : hooks ustate) (shk : shooks) (fuel : nat) (g g' : grammar),
+    pure_hooks ustate hk shk -> plain_grammar g ->
+    Subst.grel_b fuel g g' = true -> Subst.fields_ok_b Extracted.fcfg g = true ->
+    forall f rule_name cs u, all_scalar cs ->
+      Subst.same_outcome
+        (fst (m_parse ustate Extracted.scfg Extracted.tcfg Extracted.fcfg Extracted.rcfg hk g f rule_name (encode_str cs) u))
+        (fst (m_parse ustate Extracted.scfg Extracted.tcfg Extracted.fcfg Extracted.rcfg hk g' f rule_name (encode_str cs) u)).
+Proof.
+  intros ustate hk shk fuel g g' Hp Hg R H.
+  exact (Subst.subst_model ustate Extracted.scfg Extracted.fcfg Extracted.rcfg hk shk g g'
+           eq_refl eq_refl eq_refl Hp Hg (Subst.grel_b_ok fuel g g' R) (Subst.fields_ok_b_ok Extracted.fcfg g H)).
+Qed.
+Print Assumptions C13_subst_model.
+
+(* non-vacuity: the function that replaces every include of every rule by the
+   parenthesised body produces a related grammar, for every grammar *)
+Theorem C13_inline_every_include :
+  forall (shk : shooks) (g : grammar), Subst.fields_ok_b Extracted.fcfg g = true ->
+    forall f rule_name cs,
+      s_parse Extracted.fcfg shk g true f rule_name cs =
+      s_parse Extracted.fcfg shk (Subst.inline_grammar g) true f rule_name cs.
+Proof. intros shk g H. exact (Subst.inline_grammar_spec Extracted.fcfg shk true g H). Qed.
+Print Assumptions C13_inline_every_include.
